@@ -371,14 +371,15 @@ Definition own_ctype (i : inp) : option str :=
   | _ => None
   end.
 
-(* [explicit]: bytes given as body= to the constructor *)
+(* [explicit]: the body the instance holds when it is called (Response.__init__ drops a body= given to the
+   constructor of a 204 / 205 / 304 class; a body assigned afterwards is kept - and then sent as is) *)
 Definition call (cfg : tcfg) (cl : excls) (i : inp) (a : accept_in) (is_head : bool)
            (explicit : option str) : resp :=
   let own := match explicit with Some b => b | None => [] end in
   let has_body := nonempty own in
   if has_body || c_empty cl || is_head then
     mkResp (status_of cl) (own_ctype i)
-           (Some (if is_head then [] else if c_empty cl then [] else own))
+           (Some (if is_head then [] else own))
   else generate cfg cl i a.
 
 Definition resp_val (r : resp) : val :=
